@@ -195,6 +195,42 @@ func C03(c *core.Ctx) {
 			if ds != dl {
 				c.Report(core.Finding{Sig: "differs:" + name, Detail: fmt.Sprintf("%s: short form %s and its long form load to different models: %s", name, shortTxt, firstDiff(ds, dl)), Replay: rep})
 			}
+			// the two spellings as the later file over a richer base, and on a service extending a richer base
+			if un, ok := cs["under"]; ok && asStr(asMap(un)["t"]) != "n" {
+				underDoc := docWith(path, plainOf(un))
+				c.Eval(name+"|under|"+string(shortTxt), true)
+				psu, esu := safeLoad(work, c03Env, []namedDoc{{Name: filepath.Join(work, "compose.yaml"), Content: underDoc}, {Name: filepath.Join(work, "over.yaml"), Content: shortDoc}})
+				plu, elu := safeLoad(work, c03Env, []namedDoc{{Name: filepath.Join(work, "compose.yaml"), Content: underDoc}, {Name: filepath.Join(work, "over.yaml"), Content: longDoc}})
+				cmp := func(sig string, pa, pb *types.Project, ea, eb error) {
+					switch {
+					case (ea == nil) != (eb == nil):
+						c.Report(core.Finding{Sig: sig + ":" + name, Detail: fmt.Sprintf("%s: over a richer base %v, the short form gives %v and the long form gives %v", name, plainOf(un), ea, eb), Replay: rep})
+					case ea != nil:
+						c.Logf("vacuous companion (%s, %s): neither spelling loads: %v", sig, name, ea)
+						c.Inc("companions_not_loadable", 1)
+					case ea == nil:
+						sortPorts(pa)
+						sortPorts(pb)
+						if a, b := projDump(pa), projDump(pb); a != b {
+							c.Report(core.Finding{Sig: sig + ":" + name, Detail: fmt.Sprintf("%s: short form %s and its long form over a richer base %v load to different models: %s", name, shortTxt, plainOf(un), firstDiff(a, b)), Replay: rep})
+						}
+					}
+				}
+				cmp("under-differs", psu, plu, esu, elu)
+				if len(path) == 3 && path[0] == "services" && path[1] == "a" {
+					ext := func(v interface{}) string {
+						d := skeletonDoc()
+						svcs := d["services"].(map[string]interface{})
+						svcs["abase"] = map[string]interface{}{"image": "img", path[2]: plainOf(un)}
+						svcs["a"] = map[string]interface{}{"extends": map[string]interface{}{"service": "abase"}, path[2]: v}
+						b, _ := json.Marshal(d)
+						return string(b)
+					}
+					pse, ese := safeLoad(work, c03Env, []namedDoc{{Name: filepath.Join(work, "compose.yaml"), Content: ext(short)}})
+					ple, ele := safeLoad(work, c03Env, []namedDoc{{Name: filepath.Join(work, "compose.yaml"), Content: ext(plainOf(cs["long"]))}})
+					cmp("under-extends-differs", pse, ple, ese, ele)
+				}
+			}
 			// a later file refining one element in long syntax: the two spellings must still denote the same model
 			if ov, ok := cs["over"]; ok && asStr(asMap(ov)["t"]) != "n" {
 				overDoc := docWith(path, plainOf(ov))
